@@ -109,9 +109,9 @@ func encScenario(rt ring.Type, logN int, ch rk.Chain, np, bound int) engine.Scen
 		n := 1 << logN
 		var cf encCfg
 		cf.xsI = c.Choose(4, "Xs")
-		cf.xeI = c.Choose(3, "Xe")
+		cf.xeI = c.Choose(len(xeFor(ch)), "Xe")
 		ntt := c.Choose(2, "NTTFlag") == 0
-		cf.params = rk.Params(ch.Lit(logN, maxLogN, rt, ntt, xsAlphabet(n)[cf.xsI], xeAlphabet()[cf.xeI]))
+		cf.params = rk.Params(ch.Lit(logN, maxLogN, rt, ntt, xsAlphabet(n)[cf.xsI], xeFor(ch)[cf.xeI]))
 		L := cf.params.MaxLevel()
 		cf.pk = c.Choose(2, "key") == 1
 		cf.prov = c.Choose(5, "prov")
@@ -332,6 +332,12 @@ func runEnc(c *engine.Chooser, name string, cf encCfg) {
 
 	bound := encBound(p, cf.pk)
 	Q := q(p, cf.level)
+	if bound.Cmp(new(big.Int).Rsh(Q, 3)) >= 0 {
+		// (huge-support error distributions at a level whose modulus they nearly fill: nothing decrypts
+		// by construction, outside the statement)
+		c.Skip("declared error support ≥ Q/8 at this level")
+		return
+	}
 	var es, c1s []string
 	wrongMax := new(big.Int)
 	nonZero := 0
